@@ -23,6 +23,7 @@ DECIDED = [
     'R6: !del / !merge constructors set exactly delete=True / False on a plain node.',
     'R8: ClearNode(value) evaluated: !clear accepts no argument (ValueError for any value other than None) and constructs its base exactly once.',
     'R9: ComposedNode.ayns.filter_nodes evaluated for all 32 verdict tables of the condition on a two-level tree: an entry survives iff the condition keeps it or it is a container that is non-empty after filtering; every removed path is reported. R7 also requires the container merge to end in _replace_*(..., allow_promotions=True).',
+    'R10: ConfigList.ayns.set_child stores non-strictly (index == len appends: element-wise !merge can grow a list), the list interface strictly; _set validates once with its strict flag and stores at the validated position. R7 also: _replace_self / _replace_other attempt a promotion exactly when allowed.',
 ]
 UNDECIDED = ['interplay of three-level flag inheritance with concrete data.']
 
@@ -99,11 +100,15 @@ def check(repo, run, tier):
     g(unitrules.promotions_enabled, repo, run, 'C04.R7')
     g(unitrules.clear_init, repo, run, 'C04.R8')
     g(unitrules.clear_premerge, repo, run, 'C04.R8')
+    g(unitrules.promotion_guard, repo, run, 'C04.R7')
+    g(unitrules.list_child_store, repo, run, 'C04.R10')
     g.done()
 
 
 def mutants(repo):
     return [
+        Mutant('merge-cannot-grow-lists', lambda r: in_func(r, 'ConfigList.ayns.set_child', "return self._set(index, value, strict=False)", "return self._set(index, value)"), ['C04.R10']),
+        Mutant('promotion-when-not-allowed', lambda r: in_func(r, 'ConfigNode._replace_self', "        if allow_promotions:\n            ret = self._maybe_promote(other)", "        if not allow_promotions:\n            ret = self._maybe_promote(other)"), ['C04.R7']),
         Mutant('filter-drops-kept-containers', lambda r: in_func(r, 'ComposedNode.ayns.filter_nodes', "keep = keep or bool(possibly_new_child)", "keep = keep and bool(possibly_new_child)"), ['C04.R9']),
         Mutant('merge-without-promotion', lambda r: in_func(r, 'ComposedNode.ayns.on_merge_impl', "ret = self._replace_self(other, allow_promotions=True)", "ret = self._replace_self(other)"), ['C04.R7']),
         Mutant('clear-of-missing-target', lambda r: in_func(r, 'ClearNode.ayns.on_premerge_impl', "if node is None:", "if node is not None:"), ['C04.R8', 'C04.R5']),
